@@ -159,6 +159,7 @@ func runC10(tier string, seed uint64) {
 			if !modelled {
 				emit("c10", "NOMODEL")
 			}
+			preludeKeys := map[string][]string{}
 			if !isSingle(kind) {
 				s.MkBucket(buckets[0])
 				s.MkBucket(buckets[1])
@@ -167,8 +168,12 @@ func runC10(tier string, seed uint64) {
 			for _, b := range buckets[:min(2, len(buckets))] {
 				s.Put(b, "a", []byte{}, nil) // zero bytes: an object all the same, also when a key below it is addressed
 				s.Put(b, "n", []byte("N-"+b), nil)
+				preludeKeys[b] = append(preludeKeys[b], "a", "n")
 			}
 			stored := map[string][]string{}
+			for pb, pks := range preludeKeys {
+				stored[pb] = append(stored[pb], pks...)
+			}
 			var pending [][3]string // bucket, key, upload id
 			// an object uploaded with every kind of header a copy treats specially (the ACL is not carried
 			// over; the rest is): it is the source of the first copy of every history
@@ -195,6 +200,9 @@ func runC10(tier string, seed uint64) {
 			{
 				db := buckets[len(buckets)-1]
 				r := s.Copy(buckets[0], "lead", db, "x/y")
+				if r.Status == 200 {
+					stored[db] = append(stored[db], "x/y")
+				}
 				after := c10Snapshot(s, probe)
 				emit("c10", "FRAME", joinHex(c10Addressed(db, "x/y")), boolField(r.Status >= 400), strings.Join(before, ","), strings.Join(after, ","),
 					hs(fmt.Sprintf("%s copy of an object with ACL and metadata bucket=%q key=%q status=%d", kind, db, "x/y", r.Status)))
@@ -259,6 +267,9 @@ func runC10(tier string, seed uint64) {
 						break
 					}
 					r = s.Copy(sb, sk, b, k)
+					if r.Status == 200 {
+						stored[b] = append(stored[b], k)
+					}
 				case w < 88:
 					// the keys of a multi-delete travel in the request body, byte for byte: "/x" is not "x"
 					if len(stored[b]) > 0 && rng.Intn(2) == 0 {
@@ -308,6 +319,39 @@ func runC10(tier string, seed uint64) {
 						emit("c10", "BAD", hs(fmt.Sprintf("S:upload-of-another-key-addressed %s: a multipart request for key %q with the upload id of key %q answers %d", kind, k, u[1], r.Status)))
 					}
 				default:
+					if rng.Intn(3) > 0 {
+						// a listing is addressed to its bucket whatever its prefix spells: what it shows are keys
+						// (and groups of keys) of that bucket that begin with the prefix
+						other := buckets[rng.Intn(len(buckets))]
+						pre := []string{"../" + other + "/", "../", "./", "a/../", "../../metadata/" + other + "/", "../../buckets/" + other + "/", other + "/", "..", "a/./", ".hid"}[rng.Intn(10)] // (a prefix that begins with the delimiter is outside the scope of the listing properties: D32)
+						lr := s.List(ListReq{Bucket: b, Prefix: pre, Delim: []string{"/", ""}[rng.Intn(2)], MaxKeys: -1, V2: rng.Bool()})
+						if lr.Resp.Status == 200 {
+							have := map[string]bool{}
+							for _, sk := range stored[b] {
+								have[sk] = true
+							}
+							var alien []string
+							for _, lk := range lr.Keys {
+								if !have[lk] || !strings.HasPrefix(lk, pre) {
+									alien = append(alien, lk)
+								}
+							}
+							for _, lp := range lr.Prefixes {
+								ok := false
+								for sk := range have {
+									ok = ok || strings.HasPrefix(sk, lp)
+								}
+								if !ok || !strings.HasPrefix(lp, pre) {
+									alien = append(alien, lp)
+								}
+							}
+							if len(alien) > 0 {
+								emit("c10", "BAD", hs(fmt.Sprintf("S:listing-shows-what-the-bucket-does-not-hold %s: listing bucket %q with prefix %q shows %q, which are not keys written to that bucket under that prefix", kind, b, pre, alien)))
+							}
+						}
+						addressed = nil
+						break
+					}
 					s.List(ListReq{Bucket: b, MaxKeys: -1})
 					addressed = nil
 				}
